@@ -2,7 +2,11 @@ package harness
 
 import (
 	"fmt"
+	"sort"
 	"strings"
+	"time"
+
+	"github.com/anishathalye/porcupine"
 
 	plush "github.com/gobuffalo/plush/v5"
 	"github.com/gobuffalo/plush/v5/simrt"
@@ -14,6 +18,11 @@ import (
 // and concurrent Parse/Render/CacheSet with the cache enabled. Oracles: race
 // detector, deadlock / step budget, every result equal to the same execution
 // run alone, cached templates carry their own text, parsed programs unchanged.
+
+type cacheKeyed struct {
+	text string
+	in   cacheIn
+}
 
 type execOp struct {
 	kind    int // 0 Exec shared template, 1 Parse+Exec, 2 Render, 3 CacheSet+Render, 4 Clone+Exec
@@ -29,6 +38,39 @@ func (o execOp) String() string {
 type execRes struct {
 	out, err, log string
 	input         string // Input of the template a Parse returned
+	cacheOps      []cacheEvent
+}
+
+// cacheEvent is one operation on the global template cache, for the
+// linearizability check of S3 (model: text -> identity of the cached template;
+// Parse = get-or-insert, CacheSet = put).
+type cacheEvent struct {
+	set       bool
+	text      string
+	tmpl      *plush.Template
+	call, ret uint64
+}
+
+type cacheIn struct {
+	set  bool
+	tmpl *plush.Template
+}
+
+var cacheModel = porcupine.Model{
+	Init: func() interface{} { return (*plush.Template)(nil) },
+	Step: func(state, input, output interface{}) (bool, interface{}) {
+		st := state.(*plush.Template)
+		in := input.(cacheIn)
+		if in.set {
+			return true, in.tmpl
+		}
+		out := output.(*plush.Template)
+		if st == nil {
+			return out != nil, out // miss: the returned template is the one inserted
+		}
+		return out == st, st // hit: must hand out the cached template
+	},
+	Equal: func(a, b interface{}) bool { return a.(*plush.Template) == b.(*plush.Template) },
 }
 
 func c14ExecRun(t *rapid.T) {
@@ -146,6 +188,7 @@ func c14ExecRun(t *rapid.T) {
 				var out string
 				var err error
 				var input string
+				var cops []cacheEvent
 				switch o.kind {
 				case 0:
 					out, err = safeExec(shared[o.prog], ctx)
@@ -153,8 +196,11 @@ func c14ExecRun(t *rapid.T) {
 					out, err = safeExec(shared[o.prog].Clone(), ctx)
 				case 1:
 					var tm *plush.Template
+					ev := cacheEvent{text: p.Main, call: simrt.Tick()}
 					tm, err = plush.Parse(p.Main)
+					ev.ret, ev.tmpl = simrt.Tick(), tm
 					if err == nil {
+						cops = append(cops, ev)
 						input = tm.Input
 						out, err = safeExec(tm, ctx)
 					}
@@ -164,19 +210,31 @@ func c14ExecRun(t *rapid.T) {
 					var tm *plush.Template
 					tm, err = plush.NewTemplate(p.Main)
 					if err == nil {
+						ev := cacheEvent{set: true, text: p.Main, tmpl: tm, call: simrt.Tick()}
 						plush.CacheSet(p.Main, tm)
+						ev.ret = simrt.Tick()
+						cops = append(cops, ev)
 						out, err = safeRender(p.Main, ctx)
 					}
 				}
 				res := result(out, err, rt)
-				results[i][x] = execRes{out: res.out, err: res.err, log: res.log, input: input}
+				results[i][x] = execRes{out: res.out, err: res.err, log: res.log, input: input, cacheOps: cops}
 			}
 		})
 	}
 
+	simrt.ResetTick()
+	initialCache := map[string]*plush.Template{}
+	if cacheOn {
+		initialCache = plush.VerifCachedTemplates()
+	}
 	mark := raceBegin()
 	err := sim.Run()
 	races, raceText := raceEnd(mark)
+	finalCache := map[string]*plush.Template{}
+	if cacheOn {
+		finalCache = plush.VerifCachedTemplates()
+	}
 
 	scName := fmt.Sprintf("S%d", scenario)
 	details := func(msg string) func() map[string]interface{} {
@@ -300,6 +358,61 @@ func c14ExecRun(t *rapid.T) {
 			if o.kind == 1 && got.input != "" && got.input != progs[o.prog].Main {
 				violate(t, "C14", "parse-returns-the-template-of-its-text", "parse-wrong-template:"+scName, details(fmt.Sprintf("T%d op %d: Parse returned a template for another text", i, x)))
 				return
+			}
+		}
+	}
+	if scenario == 3 && cacheOn {
+		// the cache as a linearizable get-or-insert / put map, per text
+		var ops []porcupine.Operation
+		var maxRet uint64
+		for i := range results {
+			for _, r := range results[i] {
+				for _, e := range r.cacheOps {
+					if e.ret > maxRet {
+						maxRet = e.ret
+					}
+					ops = append(ops, porcupine.Operation{ClientId: i, Input: cacheKeyed{e.text, cacheIn{set: e.set, tmpl: e.tmpl}}, Call: int64(e.call), Output: e.tmpl, Return: int64(e.ret)})
+				}
+			}
+		}
+		for _, p := range progs {
+			if tm := initialCache[p.Main]; tm != nil {
+				ops = append(ops, porcupine.Operation{ClientId: ntasks, Input: cacheKeyed{p.Main, cacheIn{set: true, tmpl: tm}}, Call: -2, Output: tm, Return: -1})
+			}
+			if tm := finalCache[p.Main]; tm != nil {
+				// final state: a lookup after everything must hit this template
+				ops = append(ops, porcupine.Operation{ClientId: ntasks, Input: cacheKeyed{p.Main, cacheIn{}}, Call: int64(maxRet) + 1, Output: tm, Return: int64(maxRet) + 2})
+			}
+		}
+		if len(ops) > 0 {
+			model := cacheModel
+			model.Partition = func(history []porcupine.Operation) [][]porcupine.Operation {
+				m := map[string][]porcupine.Operation{}
+				var order []string
+				for _, o := range history {
+					k := o.Input.(cacheKeyed)
+					o.Input = k.in
+					if _, ok := m[k.text]; !ok {
+						order = append(order, k.text)
+					}
+					m[k.text] = append(m[k.text], o)
+				}
+				sort.Strings(order)
+				var out [][]porcupine.Operation
+				for _, k := range order {
+					out = append(out, m[k])
+				}
+				return out
+			}
+			count("c14_s3_cache_history_ops", int64(len(ops)))
+			switch porcupine.CheckOperationsTimeout(model, ops, 10*time.Second) {
+			case porcupine.Illegal:
+				violate(t, "C14", "cache-ops-linearizable", "linearizability:cache", details("Parse (get-or-insert) / CacheSet (put) history on the template cache is not linearizable: a cached or explicitly set template was replaced behind the back of a completed operation"))
+				return
+			case porcupine.Unknown:
+				count("c14_s3_linearizability_unknown", 1)
+			default:
+				count("c14_s3_cache_linearizable", 1)
 			}
 		}
 	}
